@@ -199,6 +199,9 @@ bool LazyTableTranslation::FetchMoreTableEntries() {
   }
   if (more.entry_count() > previous_entry_count) {
     more.Skip(previous_entry_count);
+    // LookupWords does not order the chunks it adds; bring the best entry
+    // among those not yet shown to the front.
+    more.Sort();
     iter_ = std::move(more);
   }
   return true;
@@ -264,6 +267,9 @@ an<Translation> TableTranslator::Query(const string& input,
     DictEntryIterator iter;
     if (dict_ && dict_->loaded()) {
       dict_->LookupWords(&iter, code, false);
+      // several syllables may share the spelling; start with the best entry
+      if (!iter.exhausted())
+        iter.Sort();
     }
     UserDictEntryIterator uter;
     if (enable_user_dict) {
